@@ -35,6 +35,7 @@ func c09Gen(r *rand.Rand, tier string) []spec.Case {
 		add("grpc", "accept-twice:"+s)
 		add("grpc", "dial-timeout-then-accept-twice:"+s)
 		add("grpcmux", "accept-twice:"+s)
+		add("grpcmux", "late-accept-during-other-knock:"+s)
 	}
 	// random histories of length 2-4 (the stale-knock step of grpcmux only in its dedicated single-step cases above)
 	n := 12
@@ -46,6 +47,9 @@ func c09Gen(r *rand.Rand, tier string) []spec.Case {
 		pool := append([]string(nil), common...)
 		if k == "mux" {
 			pool = append(pool, "accept-at-expiry", "dial-timeout-then-accept", "staggered-dials-then-accept", "matched-then-dial-again")
+		}
+		if k == "grpcmux" && tier == "thorough" {
+			pool = append(pool, "late-accept-during-other-knock")
 		}
 		if k == "grpc" {
 			pool = append(pool, "dial-timeout-then-accept", "accept-twice", "dial-timeout-then-accept-twice")
@@ -122,6 +126,15 @@ func c09Judge(c spec.Case, evs []spec.Event, d *Death) CaseResult {
 				if e == "" {
 					viol("unmatched-dial-succeeded", fmt.Sprintf("step %s: a dial with no accept succeeded", s.Step))
 				}
+			}
+		case "late-accept-during-other-knock":
+			for _, e := range s.Errs {
+				if e == "dialA: " || e == "dialB: " {
+					viol("unmatched-dial-succeeded", fmt.Sprintf("step %s: a dial with no accept succeeded (%v)", s.Step, s.Errs))
+				}
+			}
+			if s.Note != "" {
+				viol("accept-and-serve-stuck", s.Step+": "+s.Note)
 			}
 		case "dial-timeout-then-accept-twice":
 			if len(s.Errs) > 0 && s.Errs[0] == "dial: " {
